@@ -231,7 +231,10 @@ func genSnapshot(rng *rand.Rand) *snapshot {
 	// capacities
 	tight := rng.Intn(3)
 	for _, n := range s.Nodes {
-		for disk := range n.Max {
+		for _, disk := range []string{"", "ssd"} {
+			if _, ok := n.Max[disk]; !ok {
+				continue
+			}
 			cnt := 0
 			for _, v := range n.Vols {
 				if v.Disk == disk {
@@ -259,7 +262,8 @@ func genSnapshot(rng *rand.Rand) *snapshot {
 				hdd = append(hdd, n)
 			}
 		}
-		for e := 0; e < 1+rng.Intn(3) && len(hdd) > 0; e++ {
+		nEc := 1 + rng.Intn(3)
+		for e := 0; e < nEc && len(hdd) > 0; e++ {
 			coll := colls[rng.Intn(len(colls))]
 			for sh := 0; sh < 14; sh++ {
 				if rng.Intn(10) == 0 {
